@@ -32,7 +32,7 @@ pub struct Case {
     pub tag: String,
 }
 
-pub const POINT_ADV: [&str; 6] = ["pass", "rerandomised-representation", "negated", "doubled", "P1", "off-curve(y+1)"];
+pub const POINT_ADV: [&str; 7] = ["pass", "rerandomised-representation", "negated", "doubled", "P1", "off-curve(y+1)", "point-at-infinity"];
 
 fn ident(spec: &str, seed: u64) -> Vec<u8> {
     if let Some(n) = spec.strip_prefix("len:") {
@@ -73,6 +73,7 @@ fn adv_point(p: &Point, code: u16, seed: u64) -> Point {
         2 => lib_g1_affine(&pr.e1.neg(&r)),
         3 => lib_g1_affine(&sm9::g1_add(&r, &r)),
         4 => lib_g1_affine(&pr.p1),
+        6 => lib_g1(&None, &BigUint::one()),
         _ => {
             let (x, y) = r.unwrap();
             lib_g1_raw(&x, &((y + 1u32) % &pr.p))
@@ -123,20 +124,21 @@ pub fn eval(ctx: &Ctx, case: &Case) {
     }
     // deliver R_A to B
     let ra_del = adv_point(&ra_pt, case.adv[0], ctx.seed);
-    let ra_tampered = case.adv[0] == 5 || ref_g1(&ra_del) != fx.x.ra;
+    let bad0 = case.adv[0] == 5 || case.adv[0] == 6;
+    let ra_tampered = bad0 || ref_g1(&ra_del) != fx.x.ra;
     let (r2, log2) = with_rng(fill(&rb), || exch_step_1b(&msk, &ida, &idb, &key_b, &ra_del, case.klen));
     ctx.call();
     let what = format!("R_A={}/R_B={}", POINT_ADV[case.adv[0] as usize], POINT_ADV[case.adv[1] as usize]);
     let (rb_pt, skb) = match r2 {
         Guard::Done(Ok(v)) => {
-            if case.adv[0] == 5 {
-                ctx.violation("exch_step_1b", &format!("off-curve-R_A-accepted/{}", tag), String::new(), cj());
+            if bad0 {
+                ctx.violation("exch_step_1b", &format!("R_A={}-accepted/{}", POINT_ADV[case.adv[0] as usize], tag), String::new(), cj());
                 return;
             }
             v
         }
-        Guard::Done(Err(_)) if case.adv[0] == 5 => {
-            ctx.outcome("refused/exch_step_1b/off-curve-R_A");
+        Guard::Done(Err(_)) if bad0 => {
+            ctx.outcome("refused/exch_step_1b/invalid-R_A");
             return;
         }
         other => {
@@ -168,19 +170,20 @@ pub fn eval(ctx: &Ctx, case: &Case) {
     }
     // deliver R_B to A
     let rb_del = adv_point(&rb_pt, case.adv[1], ctx.seed ^ 1);
-    let rb_tampered = case.adv[1] == 5 || ref_g1(&rb_del) != fx.x.rb;
+    let bad1 = case.adv[1] == 5 || case.adv[1] == 6;
+    let rb_tampered = bad1 || ref_g1(&rb_del) != fx.x.rb;
     ctx.call();
     let r3 = guard(|| exch_step_2a(&msk, &ida, &idb, &key_a, ra_scalar, &ra_pt, &rb_del, case.klen));
     let ska = match r3 {
         Guard::Done(Ok(v)) => {
-            if case.adv[1] == 5 {
-                ctx.violation("exch_step_2a", &format!("off-curve-R_B-accepted/{}", tag), String::new(), cj());
+            if bad1 {
+                ctx.violation("exch_step_2a", &format!("R_B={}-accepted/{}", POINT_ADV[case.adv[1] as usize], tag), String::new(), cj());
                 return;
             }
             v
         }
-        Guard::Done(Err(_)) if case.adv[1] == 5 => {
-            ctx.outcome("refused/exch_step_2a/off-curve-R_B");
+        Guard::Done(Err(_)) if bad1 => {
+            ctx.outcome("refused/exch_step_2a/invalid-R_B");
             return;
         }
         other => {
@@ -213,7 +216,7 @@ pub fn replay(ctx: &Arc<Ctx>, v: &Value) {
 pub fn run(ctx: &Arc<Ctx>) {
     refmodels::selftest::run(&["sm3", "sm9"]).unwrap_or_else(|e| ctx.machinery_error(format!("reference self-test failed: {}", e)));
     let n = sm9::params().n.clone();
-    ctx.set_rule("stateright BFS over the man-in-the-middle choices for the two deliveries R_A->B and R_B->A, each in {pass, re-randomised Jacobian representation, -R, 2R, P1, off-curve}, on the real exch_step_1a / 1b / 2a with ephemeral scalars fixed through the RNG seam, per configuration (master {Annex ke, seeded} x identity pairs {Alice/Bob, ''/x, seeded}); honest paths for every klen 1..=128. Invariant: honest deliveries (incl. re-randomised) give SK_A = SK_B = KDF(ID_A||ID_B||R_A||R_B||g1||g2||g3) of the reference (incl. the GM/T 0044.5 example); an off-curve R is refused by the step that receives it; any other altered R makes the two keys differ; no panic.");
+    ctx.set_rule("stateright BFS over the man-in-the-middle choices for the two deliveries R_A->B and R_B->A, each in {pass, re-randomised Jacobian representation, -R, 2R, P1, off-curve, point at infinity}, on the real exch_step_1a / 1b / 2a with ephemeral scalars fixed through the RNG seam, per configuration (master {Annex ke, seeded} x identity pairs {Alice/Bob, ''/x, seeded}); honest paths for every klen 1..=128. Invariant: honest deliveries (incl. re-randomised) give SK_A = SK_B = KDF(ID_A||ID_B||R_A||R_B||g1||g2||g3) of the reference (incl. the GM/T 0044.5 example); an off-curve R is refused by the step that receives it; any other altered R makes the two keys differ; no panic.");
     let mut g = SplitMix::new(ctx.seed, "c17");
     let annex = Config { ke: "0002E65B0762D042F51F0D23542B13ED8CFA2E9A0E7206361E013A283905E31F".into(), ida: "Alice".into(), idb: "Bob".into(), ra: "00005879DD1D51E175946F23B1B41E93BA31C584AE59A426EC1046A4D03B06C8".into(), rb: "00018B98C44BEF9F8537FB7D071B2C928B3BC65BD3D69E1EEE213564905634FE".into() };
     let seeded_ke = hexbig(&g.nonzero_below(&n));
@@ -224,15 +227,50 @@ pub fn run(ctx: &Arc<Ctx>) {
     // ephemeral scalars with all-zero 64-bit limbs between non-zero ones; master key equal to H1(ID_B||02) (Q_B is a doubling)
     cfgs.push(Config { ke: annex.ke.clone(), ida: "Alice".into(), idb: "Bob".into(), ra: hexbig(&((BigUint::one() << 128usize) + 1u32)), rb: hexbig(&((BigUint::from(0x1234u32) << 192usize) + 15u32)) });
     cfgs.push(mk(&hexbig(&sm9::h1(b"Bob", sm9::HID_EXCH)), "Alice", "Bob", &mut g));
+    // ephemeral scalars searched so that the x coordinate of R_A (resp. R_B) starts with the byte 04 or 00
+    {
+        let ke = hb(&annex.ke);
+        let ppube = sm9::g1_mul(&ke, &sm9::params().p1);
+        let (qb, qa) = (sm9::enc_q(&ppube, b"Bob", sm9::HID_EXCH), sm9::enc_q(&ppube, b"Alice", sm9::HID_EXCH));
+        let mut found: Vec<(u8, bool, BigUint)> = Vec::new();
+        let mut r = g.nonzero_below(&(&n - (BigUint::one() << 40usize))) | BigUint::one();
+        let (mut pa, mut pb) = (sm9::g1_mul(&r, &qb), sm9::g1_mul(&r, &qa));
+        let (qb2, qa2) = (sm9::g1_add(&qb, &qb), sm9::g1_add(&qa, &qa));
+        for _ in 0..6000 {
+            for (is_a, pt) in [(true, &pa), (false, &pb)] {
+                let b0 = sm9::g1_bytes(pt)[0];
+                if (b0 == 0x04 || b0 == 0x00) && !found.iter().any(|(v, a, _)| *v == b0 && *a == is_a) {
+                    found.push((b0, is_a, r.clone()));
+                }
+            }
+            if found.len() == 4 {
+                break;
+            }
+            r += 2u32;
+            pa = sm9::g1_add(&pa, &qb2);
+            pb = sm9::g1_add(&pb, &qa2);
+        }
+        let other = hexbig(&(g.nonzero_below(&(&n - 3u32)) | BigUint::one()));
+        for (_, is_a, r) in &found {
+            cfgs.push(Config { ke: annex.ke.clone(), ida: "Alice".into(), idb: "Bob".into(), ra: if *is_a { hexbig(r) } else { other.clone() }, rb: if *is_a { other.clone() } else { hexbig(r) } });
+        }
+        ctx.cov("searched_R_with_leading_byte_04_or_00", json!(found.iter().map(|(b, a, _)| format!("{}:{:02x}", if *a { "R_A" } else { "R_B" }, b)).collect::<Vec<_>>()));
+    }
     if ctx.tier == Tier::Thorough {
         cfgs.push(mk(&annex.ke, "len:33", "len:7", &mut g));
         cfgs.push(mk(&seeded_ke, "", "x", &mut g));
         cfgs.push(mk(&seeded_ke, "len:33", "len:7", &mut g));
     }
-    let (st, hists) = explore_collect((0..cfgs.len() as u16).map(|i| vec![i]).collect(), Box::new(|h: &[u16]| if h.len() < 3 { (0..6).collect() } else { vec![] }));
+    let n_adv = cfgs.len().min(ctx.tier.pick(5usize, 12));
+    let (st, hists) = explore_collect((0..n_adv as u16).map(|i| vec![i]).collect(), Box::new(|h: &[u16]| if h.len() < 3 { (0..7).collect() } else { vec![] }));
     let mut cases: Vec<Case> = hists.iter().filter(|h| h.len() == 3).map(|h| Case { cfg: cfgs[h[0] as usize].clone(), klen: 16, adv: [h[1], h[2]], tag: if h[0] == 0 { "annex".into() } else { format!("cfg{}", h[0]) } }).collect();
     ctx.depth(st.max_depth);
     ctx.cov("adversary_model", json!({"configurations": cfgs.len(), "unique_states": st.unique_states, "generated": st.generated, "max_depth": st.max_depth, "histories_judged": cases.len(), "point_choices": POINT_ADV}));
+    for (ci, c) in cfgs.iter().enumerate().skip(n_adv) {
+        for klen in [16usize, 48] {
+            cases.push(Case { cfg: c.clone(), klen, adv: [0, 0], tag: format!("honest/cfg{}", ci) });
+        }
+    }
     for klen in 1..=128usize {
         cases.push(Case { cfg: cfgs[klen % cfgs.len()].clone(), klen, adv: [(klen % 2) as u16, ((klen / 2) % 2) as u16], tag: format!("honest/klen%32={}", if klen % 32 == 0 { "0" } else { "!0" }) });
     }
